@@ -145,11 +145,79 @@ fn retry_cases(o: &mut Out, rng: &mut Rng, thorough: bool) {
     }
 }
 
+/// Animated encoders: all frames streamed through ONE stream writer; after any Err the caller simply keeps writing (and
+/// flushing / finishing).  Whatever the sink does, no call may panic.
+fn keep_going_cases(o: &mut Out, rng: &mut Rng, thorough: bool) {
+    use std::io::Write;
+    for k in 0..(if thorough { 300 } else { 40 }) {
+        let mut cfg = random_cfg(rng, Some(true));
+        cfg.sep = k % 4 == 0;
+        let nimg = match cfg.animated { Some((nf, _)) => nf as usize + cfg.sep as usize, None => 1 };
+        let bits = crate::refimpl::samples(cfg.color) * cfg.depth as usize;
+        let rowlen = (cfg.w as usize * bits + 7) / 8;
+        let data = rng.bytes(rowlen * cfg.h as usize * nimg);
+        let size = *rng.pick(&[1usize, 7, 64, 4096]);
+        let part = *rng.pick(&[1usize, rowlen, rowlen * cfg.h as usize, data.len()]);
+        let owned = k % 3 == 0;
+        let history = |sink: Sink| -> Result<(), String> {
+            guarded(|| {
+                let mut e = png::Encoder::new(sink.clone(), cfg.w, cfg.h);
+                e.set_color(color_of(cfg.color));
+                e.set_depth(depth_of(cfg.depth));
+                if let Some(p) = &cfg.palette { e.set_palette(p.clone()); }
+                set_compression(&mut e, cfg.compression);
+                if let Some((nf, np)) = cfg.animated { let _ = e.set_animated(nf, np); if cfg.sep { let _ = e.set_sep_def_img(true); } }
+                let mut w = match e.write_header() { Ok(w) => w, Err(_) => return };
+                let drive = |sw: &mut png::StreamWriter<Sink>| {
+                    let mut pos = 0;
+                    let mut stalls = 0;
+                    while pos < data.len() && stalls < 6 {
+                        let end = (pos + part).min(data.len());
+                        match sw.write(&data[pos..end]) { Ok(0) => stalls += 1, Ok(n) => pos += n, Err(_) => stalls += 1 }
+                    }
+                    let _ = sw.flush();
+                    let _ = sw.flush();
+                };
+                if owned {
+                    if let Ok(mut sw) = w.into_stream_writer_with_size(size) { drive(&mut sw); let _ = sw.finish(); }
+                } else {
+                    if let Ok(mut sw) = w.stream_writer_with_size(size) { drive(&mut sw); let _ = sw.finish(); }
+                    let _ = w.finish();
+                }
+            })
+        };
+        let sink0 = Sink::new(0, None, false);
+        o.mark(&format!("keep-going {:?} size={} part={} owned={} no-failure", cfg, size, part, owned));
+        if let Err(m) = history(sink0.clone()) {
+            o.violation(viol("writer-panicked", &format!("writer-panicked: {}", m.chars().take(50).collect::<String>()), vec![("config", jstr(&format!("{:?}", cfg))), ("why", jstr(&m)), ("sink_failure", jstr("none"))]));
+            continue;
+        }
+        let total = sink0.0.borrow().calls;
+        let idx: Vec<usize> = if total <= 80 || thorough { (0..total).collect() } else { (0..80).map(|_| rng.below(total as u64) as usize).collect() };
+        for f in idx {
+            for once in [true, false] {
+                let sink = Sink::new(0, Some(f), once);
+                o.mark(&format!("keep-going {:?} size={} part={} owned={} sink-fails-at={} once={}", cfg, size, part, owned, f, once));
+                o.direct_checks += 1;
+                o.count(if once { "keep-going.fail-once" } else { "keep-going.fail-forever" });
+                if let Err(m) = history(sink.clone()) {
+                    let st = sink.0.borrow();
+                    o.violation(viol("writer-panicked", &format!("writer-panicked: {}", m.chars().take(50).collect::<String>()),
+                        vec![("config", jstr(&format!("{:?}", cfg))), ("stream_buffer", size.to_string()), ("write_part", part.to_string()), ("owned_stream_writer", owned.to_string()),
+                             ("sink_fails_at_call", f.to_string()), ("once", once.to_string()), ("why", jstr(&m)), ("accepted", jstr(&hex(&st.accepted))), ("pixels", jstr(&hex(&data)))]));
+                }
+            }
+        }
+        o.distinct(&format!("keep-going-{:?}-{}-{}-{}", cfg.animated.map(|x| x.0), cfg.sep, size, owned));
+    }
+}
+
 pub fn run(a: &Args) {
     let mut o = Out::new(&a.out);
     let mut rng = Rng::new(a.seed);
     let thorough = a.tier == "thorough";
     retry_cases(&mut o, &mut rng, thorough);
+    keep_going_cases(&mut o, &mut rng, thorough);
     for k in 0..(if thorough { 4000 } else { 260 }) {
         let mut cfg = random_cfg(&mut rng, None);
         cfg.validate = k % 2 == 0;
